@@ -21,6 +21,14 @@
 (*     saved on its matching enter)                                              *)
 (* Any other write to a shared cell, or a cell owned by two schemas that are     *)
 (* meant to be independent, is not a behaviour of the specification.             *)
+(*                                                                           *)
+(* The process-wide BACKEND_REGISTRY dictionaries (schemas, checks, parsers) are  *)
+(* filled lazily by the first validation.  Their accesses are logged as          *)
+(*    [th, ev : "reg_write" | "reg_read" | "reg_probe", key, hit, fn]             *)
+(* The registry only grows; a probe (membership test while registering) and a     *)
+(* lookup see its current contents; and - the rule that makes lazy registration    *)
+(* safe under every interleaving - a LOOKUP by get_backend of a key that default    *)
+(* registration provides always finds it: whoever looks up has registered first.    *)
 (***************************************************************************)
 EXTENDS Integers, Sequences, FiniteSets, TLC, Json, IOUtils
 
@@ -31,8 +39,9 @@ VARIABLES tid, l,
           writer,      \* [1..K -> thread | "init"]
           saved,       \* [thread name -> [1..K -> value | "none"]] values saved by run_schema_component_checks
           cfgstack,    \* [thread name -> Seq(value)]  configurations saved by config_context
-          tainted      \* threads that read a cell last written by another thread
-tvars == <<tid, l, mem, writer, saved, cfgstack, tainted>>
+          tainted,     \* threads that read a cell last written by another thread
+          registry     \* keys present in the backend registries
+tvars == <<tid, l, mem, writer, saved, cfgstack, tainted, registry>>
 
 Tr == Traces[tid]
 Hdr == Tr[1]
@@ -47,6 +56,7 @@ TInit == /\ tid \in 1..Len(Traces)
          /\ saved = [t \in ThreadNames |-> [i \in 1..K |-> "none"]]
          /\ cfgstack = [t \in ThreadNames |-> <<>>]
          /\ tainted = {}
+         /\ registry = {}
 
 E == Tr[l]
 Adv == l' = l + 1 /\ tid' = tid
@@ -62,7 +72,7 @@ Read ==
   /\ cfgstack' = IF E.fn = "config_context"               \* _outer_config_ctx = get_config_context(None)
                  THEN [cfgstack EXCEPT ![E.th] = Append(@, E.val)]
                  ELSE cfgstack
-  /\ UNCHANGED <<mem, writer>>
+  /\ UNCHANGED <<mem, writer, registry>>
 
 ComponentWrite ==                                         \* override or restore, only in the container loop
   /\ l <= Len(Tr) /\ E.ev = "write" /\ E.loc # CfgLoc /\ Adv
@@ -70,7 +80,7 @@ ComponentWrite ==                                         \* override or restore
   /\ E.val = Hdr.override[E.loc] \/ E.val = saved[E.th][E.loc]
   /\ mem' = [mem EXCEPT ![E.loc] = E.val]
   /\ writer' = [writer EXCEPT ![E.loc] = E.th]
-  /\ UNCHANGED <<saved, cfgstack, tainted>>
+  /\ UNCHANGED <<saved, cfgstack, tainted, registry>>
 
 CfgEnter ==                                               \* config_context: override (the save was a Read step)
   /\ l <= Len(Tr) /\ E.ev = "cfg_enter" /\ Adv
@@ -78,7 +88,7 @@ CfgEnter ==                                               \* config_context: ove
   /\ mem' = [mem EXCEPT ![CfgLoc] = E.val]
   /\ writer' = [writer EXCEPT ![CfgLoc] = E.th]
   /\ tainted' = Taint(E.th, CfgLoc)
-  /\ UNCHANGED <<saved, cfgstack>>
+  /\ UNCHANGED <<saved, cfgstack, registry>>
 
 CfgExit ==                                                \* restore what THIS thread saved on its matching enter
   /\ l <= Len(Tr) /\ E.ev = "cfg_exit" /\ Adv
@@ -87,9 +97,25 @@ CfgExit ==                                                \* restore what THIS t
   /\ cfgstack' = [cfgstack EXCEPT ![E.th] = SubSeq(@, 1, Len(@) - 1)]
   /\ mem' = [mem EXCEPT ![CfgLoc] = E.val]
   /\ writer' = [writer EXCEPT ![CfgLoc] = E.th]
-  /\ UNCHANGED <<saved, tainted>>
+  /\ UNCHANGED <<saved, tainted, registry>>
 
-TraceNext == Read \/ ComponentWrite \/ CfgEnter \/ CfgExit
+(* keys that default registration provides: every key some thread writes in this execution *)
+Registrable == { Tr[i].key : i \in { j \in 2..Len(Tr) : Tr[j].ev = "reg_write" } }
+RegWrite ==                                               \* register_backend: the registry only grows
+  /\ l <= Len(Tr) /\ E.ev = "reg_write" /\ Adv
+  /\ registry' = registry \cup {E.key}
+  /\ UNCHANGED <<mem, writer, saved, cfgstack, tainted>>
+RegProbe ==                                               \* `key not in registry` while registering
+  /\ l <= Len(Tr) /\ E.ev = "reg_probe" /\ Adv
+  /\ E.hit = (E.key \in registry)
+  /\ UNCHANGED <<mem, writer, saved, cfgstack, tainted, registry>>
+RegRead ==                                                \* get_backend: registry[key]
+  /\ l <= Len(Tr) /\ E.ev = "reg_read" /\ Adv
+  /\ E.hit = (E.key \in registry)
+  /\ E.key \in Registrable => E.hit                       \* whoever looks up has registered first
+  /\ UNCHANGED <<mem, writer, saved, cfgstack, tainted, registry>>
+
+TraceNext == Read \/ ComponentWrite \/ CfgEnter \/ CfgExit \/ RegWrite \/ RegProbe \/ RegRead
 TraceSpec == TInit /\ [][TraceNext]_tvars
 
 NotStuck == l <= Len(Tr) => ENABLED TraceNext
